@@ -920,8 +920,95 @@ func runCase(r *rng, tf bool, stream string, idx int) line {
 		tags = append(tags, t)
 	}
 	sort.Strings(tags)
-	coq := fmt.Sprintf("(mkCase %v (mkState %s %s) [%s])", tf, initTerm, initBlocks, strings.Join(c.rounds, "; "))
+	coq := fmt.Sprintf("(XRounds (mkCase %v (mkState %s %s) [%s]))", tf, initTerm, initBlocks, strings.Join(c.rounds, "; "))
 	return line{Coq: coq, NT: c.overlap, Key: strings.Join(c.key, "#"), Sample: map[string]any{"stream": stream, "rounds": c.sample}, Tags: tags}
+}
+
+// ---------------------------------------------------------------- the "conditions" stream: setConditionOnPool / hasCondition on lists
+
+var condTypes = []string{v3.IPPoolConditionAllocatable, "SomethingElse", "Third"}
+var condReasons = []string{v3.IPPoolReasonOK, v3.IPPoolReasonDisabled, v3.IPPoolReasonTerminating, v3.IPPoolReasonCIDROverlap, "Odd"}
+var condReasonTerms = []string{"ROK", "RDisabled", "RTerminating", "ROverlap", "ROther"}
+var condStatuses = []metav1.ConditionStatus{metav1.ConditionTrue, metav1.ConditionFalse, metav1.ConditionUnknown}
+var condStatusTerms = []string{"STrue", "SFalse", "SUnknown"}
+var condMsgs = []string{"", "m1", "m2"}
+
+func lcondTerm(c metav1.Condition) string {
+	return fmt.Sprintf("(mkLC %d %s %s %d)", slices.Index(condTypes, c.Type), condStatusTerms[slices.Index(condStatuses, c.Status)],
+		condReasonTerms[slices.Index(condReasons, c.Reason)], slices.Index(condMsgs, c.Message))
+}
+
+func lcondsTerm(cs []metav1.Condition) string {
+	ts := make([]string, len(cs))
+	for i, c := range cs {
+		ts[i] = lcondTerm(c)
+	}
+	return "[" + strings.Join(ts, "; ") + "]"
+}
+
+func genLCond(r *rng, ty string) metav1.Condition {
+	return metav1.Condition{Type: ty, Status: pick(r, condStatuses), Reason: pick(r, condReasons), Message: pick(r, condMsgs)}
+}
+
+func runCondCase(r *rng) line {
+	p := &v3.IPPool{ObjectMeta: metav1.ObjectMeta{Name: "c"}}
+	tags := []string{"stream:conditions"}
+	n := r.intn(5)
+	dup := r.chance(25) // the API server keeps one condition per type; the helpers are also run on lists that break the rule
+	var before []metav1.Condition
+	used := map[string]bool{}
+	for i := 0; i < n; i++ {
+		ty := pick(r, condTypes)
+		if used[ty] && !dup {
+			continue
+		}
+		used[ty] = true
+		before = append(before, genLCond(r, ty))
+	}
+	switch {
+	case len(before) == 0 && r.chance(50):
+		tags = append(tags, "cond:nil-status")
+	default:
+		p.Status = &v3.IPPoolStatus{Conditions: slices.Clone(before)}
+		if len(before) == 0 {
+			tags = append(tags, "cond:empty-list")
+		}
+	}
+	nc := genLCond(r, pick(r, []string{v3.IPPoolConditionAllocatable, v3.IPPoolConditionAllocatable, "SomethingElse"}))
+	if len(before) > 0 && r.chance(40) { // aim at "already as wanted" / "differs in one field"
+		for _, b := range before {
+			if b.Type == nc.Type {
+				nc = b
+				nc.LastTransitionTime = metav1.Time{}
+				switch r.intn(4) {
+				case 0:
+					nc.Message = pick(r, condMsgs)
+				case 1:
+					nc.Reason = pick(r, condReasons)
+				case 2:
+					nc.Status = pick(r, condStatuses)
+				}
+				break
+			}
+		}
+	}
+	hasT := ippool.VerifHasCondition(p, v3.IPPoolConditionAllocatable, metav1.ConditionTrue)
+	hasF := ippool.VerifHasCondition(p, v3.IPPoolConditionAllocatable, metav1.ConditionFalse)
+	changed := ippool.VerifSetCondition(p, nc)
+	var after []metav1.Condition
+	if p.Status != nil {
+		after = p.Status.Conditions
+	}
+	cnt := 0
+	for _, b := range before {
+		if b.Type == nc.Type {
+			cnt++
+		}
+	}
+	tags = append(tags, fmt.Sprintf("cond:same-type-before=%d", min(cnt, 2)), fmt.Sprintf("cond:changed=%v", changed))
+	coq := fmt.Sprintf("(XCond (mkCCase %s %s %s %v %v %v))", lcondsTerm(before), lcondTerm(nc), lcondsTerm(after), changed, hasT, hasF)
+	return line{Coq: coq, NT: len(before) > 0, Key: coq, Tags: tags,
+		Sample: map[string]any{"stream": "conditions", "before": lcondsTerm(before), "set": lcondTerm(nc), "after": lcondsTerm(after), "changed": changed}}
 }
 
 // which order of the Spec.Disabled / DeletionTimestamp tests does the tree under test implement?
@@ -961,6 +1048,9 @@ func main() {
 			stream = "malformed"
 		}
 		_ = enc.Encode(runCase(r, tf, stream, i/10*2+i%10))
+		if i%8 == 7 {
+			_ = enc.Encode(runCondCase(r))
+		}
 	}
 	_ = enc.Encode(map[string]any{"stats": map[string]any{"terminating_tested_before_disabled": tf}})
 }
